@@ -409,7 +409,8 @@ fn describe_err(e: Box<grass_compiler::Error>, fs: Option<&SimFs>, spec: &JobSpe
     Outcome::Err(info)
 }
 
-pub fn build_and_run(spec: &JobSpec, fs: &dyn grass_compiler::Fs, logger: &dyn Logger, simfs: Option<&SimFs>) -> Outcome {
+/// The `Options` value a job asks for (everything but the entry point).
+pub fn make_options<'a>(spec: &JobSpec, fs: &'a dyn grass_compiler::Fs, logger: &'a dyn Logger) -> Options<'a> {
     let fns = FNS.get().expect("init_custom_fns not called");
     let mut opts = Options::default()
         .fs(fs)
@@ -429,6 +430,73 @@ pub fn build_and_run(spec: &JobSpec, fs: &dyn grass_compiler::Fs, logger: &dyn L
         Some("scss") => opts = opts.input_syntax(InputSyntax::Scss),
         _ => {}
     }
+    opts
+}
+
+/// Everything of a job that goes into its `Options`: two jobs with the same key ask for equal
+/// option values, so a caller may hand both the same `Options` object.
+pub fn options_key(spec: &JobSpec) -> String {
+    format!("{}|{}|{}|{}|{:?}|{:?}", spec.compressed, spec.quiet, spec.unicode, spec.charset, spec.load_paths, spec.input_syntax)
+}
+
+/// An `Fs` / `Logger` pair a caller keeps for the life of a thread and points at the current
+/// job's simulated file system and recorder: what a build tool does that creates its `Options`
+/// (with its own Fs and Logger objects) once and compiles many entry points with it.
+#[derive(Debug)]
+pub struct ThreadShared {
+    fs: std::cell::Cell<*const SimFs>,
+    logger: std::cell::Cell<*const SimLogger>,
+}
+
+impl ThreadShared {
+    pub fn new() -> Self {
+        ThreadShared { fs: std::cell::Cell::new(std::ptr::null()), logger: std::cell::Cell::new(std::ptr::null()) }
+    }
+    fn fs(&self) -> &SimFs {
+        let p = self.fs.get();
+        assert!(!p.is_null(), "ThreadShared used outside a job");
+        unsafe { &*p }
+    }
+    fn lg(&self) -> &SimLogger {
+        let p = self.logger.get();
+        assert!(!p.is_null(), "ThreadShared used outside a job");
+        unsafe { &*p }
+    }
+}
+
+impl grass_compiler::Fs for ThreadShared {
+    fn is_dir(&self, path: &std::path::Path) -> bool {
+        grass_compiler::Fs::is_dir(self.fs(), path)
+    }
+    fn is_file(&self, path: &std::path::Path) -> bool {
+        grass_compiler::Fs::is_file(self.fs(), path)
+    }
+    fn read(&self, path: &std::path::Path) -> std::io::Result<Vec<u8>> {
+        grass_compiler::Fs::read(self.fs(), path)
+    }
+    fn canonicalize(&self, path: &std::path::Path) -> std::io::Result<std::path::PathBuf> {
+        grass_compiler::Fs::canonicalize(self.fs(), path)
+    }
+}
+
+impl Logger for ThreadShared {
+    fn debug(&self, location: SpanLoc, message: &str) {
+        self.lg().debug(location, message)
+    }
+    fn warn(&self, location: SpanLoc, message: &str) {
+        self.lg().warn(location, message)
+    }
+}
+
+/// Options objects kept by a simulated thread between its jobs, by `options_key`.
+pub type OptionsCache<'a> = Vec<(String, Options<'a>)>;
+
+pub fn build_and_run(spec: &JobSpec, fs: &dyn grass_compiler::Fs, logger: &dyn Logger, simfs: Option<&SimFs>) -> Outcome {
+    let opts = make_options(spec, fs, logger);
+    run_with_options(spec, &opts, simfs)
+}
+
+pub fn run_with_options(spec: &JobSpec, opts: &Options, simfs: Option<&SimFs>) -> Outcome {
     grass_compiler::verif::set_lexer_fuel(true);
     grass_compiler::verif::set_eval_fuel(spec.eval_fuel);
     grass_compiler::verif::set_depth_limit(spec.depth_limit);
@@ -437,8 +505,8 @@ pub fn build_and_run(spec: &JobSpec, fs: &dyn grass_compiler::Fs, logger: &dyn L
     crate::seams::set_sim_clock(true);
     let r = catch_unwind(AssertUnwindSafe(|| {
         let res = match &spec.entry {
-            Entry::Path(p) => grass_compiler::from_path(p, &opts),
-            Entry::Text(t) => grass_compiler::from_string(t.clone(), &opts),
+            Entry::Path(p) => grass_compiler::from_path(p, opts),
+            Entry::Text(t) => grass_compiler::from_string(t.clone(), opts),
         };
         match res {
             Ok(css) => Outcome::Ok(css),
@@ -464,14 +532,36 @@ pub fn build_and_run(spec: &JobSpec, fs: &dyn grass_compiler::Fs, logger: &dyn L
 
 /// Run on the current thread.
 pub fn run_job(spec: &JobSpec) -> JobResult {
+    run_job_in(spec, None)
+}
+
+/// Run on the current thread; with `shared`, through the thread's long-lived Fs / Logger objects
+/// and an `Options` value that earlier jobs of the thread with equal option values already used.
+pub fn run_job_in<'a>(spec: &JobSpec, shared: Option<(&'a ThreadShared, &mut OptionsCache<'a>)>) -> JobResult {
     let before = stdio_captured_len();
     let clock_before = crate::seams::clock_reads();
     MARKS.with(|m| m.borrow_mut().clear());
     let logger = SimLogger::default();
     let simfs = SimFs::new(&spec.files, &spec.extra_dirs, &spec.cwd, spec.canon.clone(), spec.faults.clone(), crate::prng::mix_str(7, &spec.label));
-    let outcome = match spec.fs_kind.as_str() {
-        "null" => build_and_run(spec, &grass_compiler::NullFs, &logger, None),
-        "std" => build_and_run(spec, &grass_compiler::StdFs, &logger, None),
+    let outcome = match (spec.fs_kind.as_str(), shared) {
+        ("null", _) => build_and_run(spec, &grass_compiler::NullFs, &logger, None),
+        ("std", _) => build_and_run(spec, &grass_compiler::StdFs, &logger, None),
+        (_, Some((sh, cache))) => {
+            sh.fs.set(&simfs as *const SimFs);
+            sh.logger.set(&logger as *const SimLogger);
+            let key = options_key(spec);
+            let at = match cache.iter().position(|(k, _)| *k == key) {
+                Some(i) => i,
+                None => {
+                    cache.push((key, make_options(spec, sh, sh)));
+                    cache.len() - 1
+                }
+            };
+            let o = run_with_options(spec, &cache[at].1, Some(&simfs));
+            sh.fs.set(std::ptr::null());
+            sh.logger.set(std::ptr::null());
+            o
+        }
         _ => build_and_run(spec, &simfs, &logger, Some(&simfs)),
     };
     let eval_ticks = grass_compiler::verif::eval_ticks();
